@@ -24,7 +24,11 @@ type info struct {
 	provType  int
 	round     int64 // "round" of a payFees input
 	cls       string
+	sc        string // called contract ("" for a plain send)
 }
+
+// canonical names of the stake operations of the storage contract
+var storageFn = map[string]string{"stake_pool_lock": "addToDelegatePool", "stake_pool_unlock": "deleteFromDelegatePool", "collect_reward": "collect_reward"}
 
 var infoCache struct {
 	s *chainsim.Step
@@ -39,7 +43,8 @@ func analyze(s *chainsim.Step, v func(key, what string)) *info {
 		value: uint64(s.Txn.Value), fee: uint64(s.Txn.Fee), cls: actionClass(s.Action.Name)}
 	in.ok = s.Err == nil && s.Txn.Status == transaction.TxnSuccess
 	in.failed = !in.ok
-	if s.Txn.TransactionType == transaction.TxnTypeSmartContract && s.Txn.ToClientID == minerSC {
+	if s.Txn.TransactionType == transaction.TxnTypeSmartContract && (s.Txn.ToClientID == minerSC || s.Txn.ToClientID == storageSC) {
+		in.sc = s.Txn.ToClientID
 		var d struct {
 			Name  string          `json:"name"`
 			Input json.RawMessage `json:"input"`
@@ -53,6 +58,13 @@ func analyze(s *chainsim.Step, v func(key, what string)) *info {
 			}
 			_ = json.Unmarshal(d.Input, &req)
 			in.provID, in.provType, in.round = req.ProviderID, req.ProviderType, req.Round
+			if in.sc == storageSC {
+				if c, ok := storageFn[in.fn]; ok {
+					in.fn = c
+				} else {
+					in.fn = "storagesc." + in.fn
+				}
+			}
 		}
 	}
 	infoCache.s, infoCache.i = s, in
@@ -127,12 +139,18 @@ func stakeMonitor(s *chainsim.Step, v func(key, what string)) {
 	for id := range ids {
 		p0, p1 := pre.Provs[id], post.Provs[id]
 		if p0 == nil || p1 == nil {
-			if in.fn != "add_miner" && in.fn != "add_sharder" {
+			if in.fn != "add_miner" && in.fn != "add_sharder" && in.fn != "storagesc.add_blobber" && in.fn != "storagesc.add_validator" {
 				v("C11:provider-appeared-or-vanished:"+in.cls, fmt.Sprintf("provider %s present before=%v after=%v", name(w, id), p0 != nil, p1 != nil))
 			}
 			continue
 		}
-		target := in.ok && stakeFn && in.provID == id && in.provType == p0.Type
+		target := in.ok && stakeFn && in.provID == id && in.provType == p0.Type && in.sc == p0.SC
+		minStake, maxStake := uint64(0), ^uint64(0)
+		if p0.SC == minerSC && pre.GN != nil {
+			minStake, maxStake = uint64(pre.GN.MinStake), uint64(pre.GN.MaxStake)
+		} else if p0.SC == storageSC && pre.SConf != nil {
+			minStake, maxStake = uint64(pre.SConf.MinStake), uint64(pre.SConf.MaxStake)
+		}
 		ds := map[string]bool{}
 		for d := range p0.Pools {
 			ds[d] = true
@@ -157,11 +175,11 @@ func stakeMonitor(s *chainsim.Step, v func(key, what string)) {
 				if has1 && b.Delegate != in.sender {
 					v("C11:lock:pool-owner-not-the-staker", fmt.Sprintf("%s is owned by %s", who, name(w, b.Delegate)))
 				}
-				if in.value == 0 || in.value < uint64(pre.GN.MinStake) {
-					v("C11:lock:below-min-stake-accepted", fmt.Sprintf("%s: lock of %d accepted, min_stake %d", who, in.value, uint64(pre.GN.MinStake)))
+				if in.value == 0 || in.value < minStake {
+					v("C11:lock:below-min-stake-accepted", fmt.Sprintf("%s: lock of %d accepted, min_stake %d", who, in.value, minStake))
 				}
-				if b.Balance > uint64(pre.GN.MaxStake) {
-					v("C11:lock:above-max-stake-accepted", fmt.Sprintf("%s: balance %d after lock, max_stake %d", who, b.Balance, uint64(pre.GN.MaxStake)))
+				if b.Balance > maxStake {
+					v("C11:lock:above-max-stake-accepted", fmt.Sprintf("%s: balance %d after lock, max_stake %d", who, b.Balance, maxStake))
 				}
 				if !has0 && len(p0.Pools) >= p0.MaxDeleg {
 					v("C11:lock:delegate-limit-exceeded", fmt.Sprintf("%s: new delegate accepted with %d pools, limit %d", who, len(p0.Pools), p0.MaxDeleg))
@@ -241,7 +259,7 @@ func stakeMonitor(s *chainsim.Step, v func(key, what string)) {
 		}
 	}
 	if in.ok && stakeFn {
-		if p := pre.Provs[in.provID]; p == nil || p.Type != in.provType {
+		if p := pre.Provs[in.provID]; p == nil || p.Type != in.provType || p.SC != in.sc {
 			v("C11:stake-call-on-unknown-provider-accepted:"+in.fn, fmt.Sprintf("%s accepted for provider %s type %d which the contract does not hold", in.fn, name(w, in.provID), in.provType))
 		}
 	}
@@ -261,8 +279,11 @@ func stakeMonitor(s *chainsim.Step, v func(key, what string)) {
 			if s.Txn.TransactionType == transaction.TxnTypeSend {
 				want.Sub(want, u(in.value))
 			}
-		case minerSC:
-			want.Add(want, walletGain).Add(want, u(in.fee))
+		case in.sc:
+			want.Add(want, walletGain)
+		}
+		if id == minerSC && id != in.sender {
+			want.Add(want, u(in.fee))
 		}
 		if s.Txn.TransactionType == transaction.TxnTypeSend && id == s.Txn.ToClientID && id != in.sender {
 			want.Add(want, u(in.value))
@@ -404,7 +425,7 @@ func killMonitor(s *chainsim.Step, v func(key, what string)) {
 	// a dead provider receives no further rewards (any transition)
 	for id, p0 := range pre.Provs {
 		p1 := post.Provs[id]
-		if p1 == nil {
+		if p1 == nil || p0.SC != minerSC {
 			continue
 		}
 		if (p0.Killed || p0.SPKilled) && p1.rewards().Cmp(p0.rewards()) > 0 {
@@ -481,6 +502,156 @@ func killMonitor(s *chainsim.Step, v func(key, what string)) {
 	for _, k := range changed {
 		if k != "provider:"+in.provID {
 			v("C23:kill-touched-another-record:"+in.fn, fmt.Sprintf("kill of %s changed %s", name(w, in.provID), k))
+		}
+	}
+}
+
+// ---------------------------------------------------------------------------------------------
+// C23 (storage contract): kill_blobber / kill_validator / shutdown_blobber / shutdown_validator.
+func storageKillMonitor(s *chainsim.Step, v func(key, what string)) {
+	in := analyze(s, v)
+	w := s.W
+	pre, post := in.pre, in.post
+	var typ int
+	var kill bool
+	switch in.fn {
+	case "storagesc.kill_blobber":
+		typ, kill = provBlobber, true
+	case "storagesc.kill_validator":
+		typ, kill = provValidator, true
+	case "storagesc.shutdown_blobber":
+		typ = provBlobber
+	case "storagesc.shutdown_validator":
+		typ = provValidator
+	default:
+		// no other transaction may flip a dead flag or slash
+		for id, p0 := range pre.Provs {
+			if p1 := post.Provs[id]; p0.SC == storageSC && p1 != nil && (p0.Killed != p1.Killed || p0.ShutDown != p1.ShutDown || p0.SPKilled != p1.SPKilled) {
+				v("C23:storage:dead-flag-changed-by-unrelated-transaction:"+in.cls, fmt.Sprintf("%s: killed/shutdown/pool-dead %v/%v/%v -> %v/%v/%v", name(w, id), p0.Killed, p0.ShutDown, p0.SPKilled, p1.Killed, p1.ShutDown, p1.SPKilled))
+			}
+		}
+		return
+	}
+	if s.Err != nil || pre.SConf == nil {
+		return
+	}
+	op := in.fn[len("storagesc."):]
+	site := "provider.Kill"
+	if !kill {
+		site = "provider.ShutDown"
+	}
+	p0, p1 := pre.Provs[in.provID], post.Provs[in.provID]
+	if p0 != nil && p0.SC != storageSC {
+		p0 = nil
+	}
+	authorised := in.sender == pre.SConf.OwnerId
+	if !kill && p0 != nil && in.sender == p0.Wallet {
+		authorised = true
+	}
+	// records of storage providers / stake pools that changed, by provider id
+	touched := map[string]bool{}
+	for id := range pre.Provs {
+		touched[id] = true
+	}
+	for id := range post.Provs {
+		touched[id] = true
+	}
+	var foreign []string
+	for id := range touched {
+		a, b := pre.Provs[id], post.Provs[id]
+		if (a != nil && a.SC != storageSC) || (b != nil && b.SC != storageSC) {
+			if a == nil || b == nil || string(a.Raw) != string(b.Raw) {
+				foreign = append(foreign, "miner-contract provider "+name(w, id))
+			}
+			continue
+		}
+		if id == in.provID {
+			continue
+		}
+		same := a != nil && b != nil && a.HasNode == b.HasNode && a.HasPool == b.HasPool && a.Killed == b.Killed && a.ShutDown == b.ShutDown &&
+			a.SPKilled == b.SPKilled && a.Reward == b.Reward && fmt.Sprint(a.Pools) == fmt.Sprint(b.Pools)
+		if !same {
+			what, q := "altered", a
+			if a == nil {
+				what, q = "created", b
+			} else if b == nil {
+				what = "deleted"
+			}
+			foreign = append(foreign, fmt.Sprintf("%s stake pool / provider record of type %d for id %s (provider node %v, stake pool %v)", what, q.Type, name(w, q.ID), q.HasNode, q.HasPool))
+		}
+	}
+	sort.Strings(foreign)
+	changedBeyondSender := len(s.Diff) > 1 || (len(s.Diff) == 1 && s.Diff[0].Path != in.sender)
+	if !in.ok {
+		if changedBeyondSender {
+			v("C23:storage:refused-call-changed-state:"+op, fmt.Sprintf("%d leaves changed by a refused %s", len(s.Diff), op))
+		}
+		s.Tag("storage-" + op + "-refused")
+		return
+	}
+	if !authorised {
+		// an unauthorised caller changes nothing (a success status without any effect is tolerated:
+		// a repeated shutdown answers "already killed or shutdown" to anybody)
+		if changedBeyondSender {
+			v("C23:"+site+":unauthorised-caller-changed-state", fmt.Sprintf("%s of %s by %s (owner %s): %d leaves changed, %v", op, name(w, in.provID), name(w, in.sender), name(w, pre.SConf.OwnerId), len(s.Diff), foreign))
+		}
+		s.Tag("storage-" + op + "-unauthorised-no-effect")
+		return
+	}
+	if len(foreign) > 0 {
+		v("C23:"+site+":touched-another-providers-record", fmt.Sprintf("%s of %s by %s: %v", op, name(w, in.provID), name(w, in.sender), foreign))
+	}
+	if p0 == nil || !p0.HasNode {
+		v("C23:storage:accepted-for-unknown-provider:"+op, fmt.Sprintf("%s accepted for %s which is not a registered storage provider", op, name(w, in.provID)))
+		return
+	}
+	if p0.Type != typ {
+		// kill_validator / shutdown_validator do not check the provider type: the owner can kill a
+		// blobber through them (its node is rewritten as a validator node). The statement only asks
+		// that the addressed provider is disabled, so this is tagged, not reported.
+		s.Tag("storage-" + op + "-applied-to-other-provider-type")
+	}
+	already := p0.Killed || p0.ShutDown
+	if already {
+		s.Tag("storage-" + op + "-repeated")
+		// exactly once: a repeated call must not slash again or revive
+		if p1 != nil && fmt.Sprint(p0.Pools) != fmt.Sprint(p1.Pools) {
+			v("C23:"+site+":slashed-again-by-repeated-call", fmt.Sprintf("%s: pools %v -> %v", name(w, in.provID), p0.Pools, p1.Pools))
+		}
+		return
+	}
+	s.Tag("storage-" + op + "-ok")
+	if p1 == nil || (!p1.HasNode && !p1.HasPool) {
+		s.Tag("storage-" + op + "-removed-provider")
+		return // provider without stake and data is removed altogether
+	}
+	if (kill && !p1.Killed) || (!kill && !p1.ShutDown) {
+		v("C23:"+site+":provider-not-marked", fmt.Sprintf("%s after %s: killed %v shut down %v", name(w, in.provID), op, p1.Killed, p1.ShutDown))
+	}
+	if len(foreign) > 0 {
+		return // the same slip explains a stake pool that was not updated; one defect, one key
+	}
+	if !p1.HasPool || !p1.SPKilled {
+		v("C23:"+site+":stake-pool-not-marked-dead", fmt.Sprintf("%s after %s: stake pool present %v dead %v", name(w, in.provID), op, p1.HasPool, p1.SPKilled))
+	}
+	// slashed by the configured fraction exactly once (shutdown: the code's documented half fraction is accepted too)
+	fr := []float64{pre.SConf.StakePool.KillSlash}
+	if !kill {
+		fr = append(fr, pre.SConf.StakePool.KillSlash/2)
+	}
+	for d, a := range p0.Pools {
+		b, ok := p1.Pools[d]
+		good := false
+		for _, f := range fr {
+			want := new(big.Float).Mul(new(big.Float).SetUint64(a.Balance), big.NewFloat(1-f))
+			wi, _ := want.Int(nil)
+			diff := new(big.Int).Sub(wi, u(b.Balance))
+			if ok && diff.CmpAbs(big.NewInt(1)) <= 0 {
+				good = true
+			}
+		}
+		if !good {
+			v("C23:"+site+":delegate-not-slashed-by-configured-fraction", fmt.Sprintf("pool of %s at %s: %d -> %d (present %v), kill_slash %v", name(w, d), name(w, in.provID), a.Balance, b.Balance, ok, pre.SConf.StakePool.KillSlash))
 		}
 	}
 }
